@@ -46,3 +46,14 @@ def limit_two_connections_k2(mc: int, p1: int, t1: int, p2: int, t2: int) -> boo
     post: _
     """
     return k._cell([1, 1], mc, [(p1, t1), (p2, t2)], "C41")
+
+
+@cond(q=400, t=900, engine="coop", encoded=ENCODED, stubs=ASSUMPTIONS, bound=k._CB % ("connection connection connection", 1) + "; max_connections 1 or 2; the 2nd client may have hung up while its connection waits for a slot (symbolic); a timed semaphore wait may time out once", signature=k._cell_sig([1, 1, 1], "C41"), replay=k._real_replay([1, 1, 1], "C41"))
+def limit_holds_when_waiting_clients_hang_up(mc: int, h1: bool, p1: int, t1: int) -> bool:
+    """
+    pre: 1 <= mc <= 2 and 0 <= p1 <= 130 and 0 <= t1 <= 5
+    post: _
+    """
+    # a connection queued behind max_connections whose client goes away must not change how many
+    # connections are served at once afterwards
+    return k._cell([1, 1, 1], mc, [(p1, t1)], "C41", (False, h1, False))
